@@ -123,6 +123,22 @@ pub fn gen_schedules(rng: &mut Rng, odd: bool) -> SchedulesDb {
             values,
         });
     }
+    // an almost empty day: a single hour at 2e-4 — non-zero (the threshold is 100 eps = 1.2e-5) although the daily mean is below it;
+    // it takes the place of the first run of the first week (no random draw)
+    {
+        let id = {
+            // derived from an existing id so that no random number is drawn
+            let mut b = *db.day[0].id.as_bytes();
+            b[15] ^= 0x5a;
+            Uuid::from_bytes(b)
+        };
+        let mut values = vec![0.0f32; 24];
+        values[9] = 2.0e-4;
+        db.day.push(ScheduleDay { id, name: "dia_casi_vacio".into(), values });
+        if let Some(first) = db.week[0].values.first_mut() {
+            first.0 = id;
+        }
+    }
     if let Some(wk) = rest_week {
         // replaces the first yearly schedule, so that whatever used it now uses this layout
         let normal = db.week[0].id;
@@ -197,12 +213,17 @@ pub fn gen_model(rng: &mut Rng, o: &GenOpts) -> Model {
     let nwc = rng.range(1, 5);
     for i in 0..nwc {
         let nl = if o.odd && rng.chance(1, 8) { 0 } else { rng.range(1, 5) };
-        let layers = (0..nl)
+        let layers: Vec<Layer> = (0..nl)
             .map(|_| Layer {
                 material: m.cons.materials[rng.below(nmat)].id,
                 e: rng.f(0.005, 0.4, 3),
             })
             .collect();
+        // odd models: the first construction has a first layer without thickness (a membrane given by its resistance, or nothing at all)
+        let mut layers = layers;
+        if o.odd && i == 0 && !layers.is_empty() {
+            layers[0].e = 0.0;
+        }
         m.cons.wallcons.push(WallCons {
             id: rng.uuid(),
             name: match rng.below(8) {
@@ -499,6 +520,7 @@ pub fn gen_model(rng: &mut Rng, o: &GenOpts) -> Model {
                 90.0
             };
             // one outline in six has its first edge split by an extra vertex: its first three vertices lie on one line
+            let tilt = if o.odd && !o.positions && i % 3 == 1 && az == 90.0 { 240.0 } else { tilt };
             let side_poly = if rng.chance(1, 6) { vec![point![0.0, 0.0], point![len * 0.5, 0.0], point![len, 0.0], point![len, h], point![0.0, h]] } else { rect(len, h) };
             let wi = add_wall(
                 &mut m,
@@ -704,6 +726,15 @@ pub fn gen_model(rng: &mut Rng, o: &GenOpts) -> Model {
         for w in m.walls.iter_mut() {
             if w.cons == old {
                 w.cons = Uuid::nil();
+            }
+        }
+    }
+    if o.odd && m.spaces.len() % 3 == 1 && !m.cons.glasses.is_empty() {
+        let old = m.cons.glasses[0].id;
+        m.cons.glasses[0].id = Uuid::nil();
+        for c in m.cons.wincons.iter_mut() {
+            if c.glass == old {
+                c.glass = Uuid::nil();
             }
         }
     }
